@@ -9,6 +9,9 @@ package c11
 
 import (
 	"fmt"
+	"os"
+	"path/filepath"
+	"sort"
 	"strings"
 
 	"verif/harness/allocsim"
@@ -214,6 +217,7 @@ type stdPkg struct {
 }
 
 type stdState struct {
+	progs  []string // example programs (files and wa.mod directories)
 	paths  []string
 	cache  []*stdPkg
 	empty  map[string]bool // packages without tests (or that do not build with tests)
@@ -227,7 +231,13 @@ func (s *stdState) pkg(path string) *stdPkg {
 			return p
 		}
 	}
-	tp, err := wab.BuildTestPackage(path)
+	var tp *wab.TestPackage
+	var err error
+	if strings.HasPrefix(path, "/") {
+		tp, err = wab.BuildProgram(path)
+	} else {
+		tp, err = wab.BuildTestPackage(path)
+	}
 	if err != nil {
 		tp = nil
 	}
@@ -252,20 +262,47 @@ func (e *Engine11) stdRun(t *tape.Tape, keep bool, res *sim.Result, log *tape.Lo
 		st.paths = wab.StdTestPackages()
 		st.stable = map[string]int{}
 		st.empty = map[string]bool{}
+		root := "/repo/waroot"
+		if d := os.Getenv("VERIF_REPO"); d != "" {
+			root = d + "/waroot"
+		}
+		for _, g := range []string{"hello.wa", "hello.wz", "examples/*.wa", "examples/misc/*.wa", "tests/*.wa", "examples/*/wa.mod"} {
+			m, _ := filepath.Glob(filepath.Join(root, g))
+			sort.Strings(m)
+			for _, x := range m {
+				if strings.HasSuffix(x, "wa.mod") {
+					x = filepath.Dir(x)
+				}
+				st.progs = append(st.progs, x)
+			}
+		}
 	}
-	pi := t.Draw(len(st.paths))
+	// one run in four takes an example program (its main function) instead of a std test
+	paths := st.paths
+	if t.Draw(4) == 3 && len(st.progs) > 0 {
+		paths = st.progs
+	}
+	pi := t.Draw(len(paths))
 	ti := t.Draw(1 << 10)
 	mode := allocsim.Mode(1 + t.Draw(int(allocsim.NModes)-1))
 	// the drawn package, or the next one in the list that has tests
 	var p *stdPkg
-	for k := 0; k < len(st.paths); k++ {
-		path := st.paths[(pi+k)%len(st.paths)]
+	for k := 0; k < len(paths); k++ {
+		path := paths[(pi+k)%len(paths)]
 		if st.empty[path] {
 			continue
 		}
 		p = st.pkg(path)
 		if p.tp != nil && len(p.tp.Tests) > 0 {
-			break
+			if !strings.HasPrefix(path, "/") {
+				break
+			}
+			// an example is usable if it runs to completion unfaulted (the w4 / arduino /
+			// canvas examples need host modules the runner does not provide)
+			pr := allocsim.New(allocsim.Plain, t, p.tp.HeapBase, 0)
+			if _, e := p.tp.Run(p.tp.Tests[0], pr); e == "" && pr.Trouble == "" {
+				break
+			}
 		}
 		st.empty[path] = true
 	}
@@ -278,11 +315,15 @@ func (e *Engine11) stdRun(t *tape.Tape, keep bool, res *sim.Result, log *tape.Lo
 		return res
 	}
 	test := p.tp.Tests[ti%len(p.tp.Tests)]
-	sm.Ops = []string{"std test " + test}
-	log.Add(fmt.Sprintf("stdtest=%s mode=%s", test, sm.Mode))
+	label := "std test " + test
+	if strings.HasPrefix(p.path, "/") {
+		label = "example " + p.path[strings.Index(p.path, "/waroot/")+8:]
+	}
+	sm.Ops = []string{label}
+	log.Add(fmt.Sprintf("%s mode=%s", label, sm.Mode))
 	fail := func(class, detail string) *sim.Result {
 		log.Add("VIOLATION " + class + " " + detail)
-		res.Violation = &sim.Violation{Class: class, Signature: class + ":stdtest:" + test, Detail: fmt.Sprintf("std test %s, allocator mode %s: %s", test, sm.Mode, detail)}
+		res.Violation = &sim.Violation{Class: class, Signature: class + ":" + strings.ReplaceAll(label, " ", ":"), Detail: fmt.Sprintf("%s, allocator mode %s: %s", label, sm.Mode, detail)}
 		res.Digest = log.Digest()
 		sm.Log = log.Lines
 		return res
@@ -306,18 +347,19 @@ func (e *Engine11) stdRun(t *tape.Tape, keep bool, res *sim.Result, log *tape.Lo
 		res.Digest = log.Digest()
 		return res
 	}
-	if st.stable[test] == 0 {
+	skey := p.path + "|" + test
+	if st.stable[skey] == 0 {
 		// a test whose output depends on the clock or the random source says
 		// nothing in a differential check: run it twice unfaulted first
 		ref2 := allocsim.New(allocsim.Plain, t, p.tp.HeapBase, 0)
 		o2, e2 := p.tp.Run(test, ref2)
 		if o2 == refOut && e2 == refErr && ref2.Mallocs == ref.Mallocs && ref2.Frees == ref.Frees {
-			st.stable[test] = 1
+			st.stable[skey] = 1
 		} else {
-			st.stable[test] = 2
+			st.stable[skey] = 2
 		}
 	}
-	if st.stable[test] == 2 {
+	if st.stable[skey] == 2 {
 		log.Add("skipped: not deterministic under the plain allocator")
 		res.Probes["stdtest_skipped_nondeterministic"]++
 		res.Digest = log.Digest()
@@ -348,6 +390,21 @@ func (e *Engine11) stdRun(t *tape.Tape, keep bool, res *sim.Result, log *tape.Lo
 	res.Probes["stdtest_runs"]++
 	if h.Violation != "" {
 		return fail(h.VClass, h.Violation)
+	}
+	if (gotOut != refOut || gotErr != refErr || h.Mallocs != ref.Mallocs || h.Frees != ref.Frees) && mode != allocsim.WrapPoison {
+		// the host allocator also moves every block: a program that prints or branches
+		// on addresses differs for that reason alone. Decide it with the benign
+		// placement-only allocator (no reuse, no poison, no dirt)
+		bh := allocsim.New(allocsim.SimBenign, t, p.tp.HeapBase, 0)
+		bOut, bErr := p.tp.Run(test, bh)
+		if bh.Trouble != "" || bOut != refOut || bErr != refErr || bh.Mallocs != ref.Mallocs || bh.Frees != ref.Frees {
+			log.Add("output depends on block placement: monitors only")
+			res.Probes["stdtest_output_depends_on_placement"]++
+			res.Nontrivial = h.Frees > 0
+			res.Digest = log.Digest()
+			sm.Log = log.Lines
+			return res
+		}
 	}
 	if gotOut != refOut || gotErr != refErr {
 		return fail("output_differs", fmt.Sprintf("with the plain allocator the test printed %q and ended with %q; under %s it printed %q and ended with %q", clip(refOut), refErr, sm.Mode, clip(gotOut), gotErr))
